@@ -15,6 +15,7 @@ import (
 	"time"
 
 	"github.com/google/martian/v3"
+	"github.com/google/martian/v3/trafficshape"
 	"pgregory.net/rapid"
 
 	"verifharness/internal/kit"
@@ -51,6 +52,8 @@ type Case struct {
 	// SlowClose: the listener hands out connections whose Close takes 30 ms, so
 	// that "closed" and "handler finished" are distinguishable moments.
 	SlowClose bool `json:"slow_close,omitempty"`
+	// Shaped: the proxy is served on a trafficshape.Listener (no shapes configured).
+	Shaped bool `json:"shaped,omitempty"`
 }
 
 // trackListener records when each accepted connection's Close has completed.
@@ -246,7 +249,13 @@ func runOnce(c Case, T time.Duration) (v kit.Verdict) {
 	if c.SlowClose {
 		tl.delay = 30 * time.Millisecond
 	}
-	pr := netkit.Start(p, func(l net.Listener) net.Listener { tl.Listener = l; return tl })
+	pr := netkit.Start(p, func(l net.Listener) net.Listener {
+		tl.Listener = l
+		if c.Shaped {
+			return trafficshape.NewListener(tl)
+		}
+		return tl
+	})
 	closed := make(chan struct{})
 	var closedAtReturn map[string]bool
 	closeStarted := false
@@ -395,6 +404,9 @@ func runOnce(c Case, T time.Duration) (v kit.Verdict) {
 		res, _, err := k.cl.ReadResponse(method, T)
 		k.res, k.resErr = res, err
 		pre := "C07/exchange/" + k.point + "/"
+		if c.Shaped {
+			pre = "C07/exchange-on-shaped-listener/" + k.point + "/"
+		}
 		switch {
 		case err != nil:
 			class := "response-missing-or-truncated"
@@ -539,6 +551,7 @@ func genCase(t *rapid.T) Case {
 		c.Conns = append(c.Conns, Conn{Point: pt})
 	}
 	c.SlowClose = rapid.Bool().Draw(t, "slow_close")
+	c.Shaped = rapid.IntRange(0, 3).Draw(t, "shaped") == 0
 	c.NewDuring = rapid.Bool().Draw(t, "new_during")
 	c.NewAfter = rapid.Bool().Draw(t, "new_after")
 	finish(&c, func(k int) []int {
@@ -582,6 +595,9 @@ func classes(c Case) []string {
 	}
 	if c.SlowClose {
 		set["slow-closing-connections"] = true
+	}
+	if c.Shaped {
+		set["traffic-shaped-listener"] = true
 	}
 	var out []string
 	for k := range set {
